@@ -4,6 +4,7 @@
     networks' stub allowance, every channel limit, and forget_channel with and without the
     tracker write (the repair of finding F10), so every statement holds for all of them. *)
 From VLS Require Import Base.U64 Model.Monitor Model.Prune Proofs.MonitorSim Proofs.MonitorProofs Proofs.PruneProofs.
+From VLS Require Gen.MonitorGen Proofs.MonitorGenProofs.
 
 (** For every history of new / setup / forget / heartbeat / block connected / block
     disconnected / restart whose connected blocks keep the chain consistent, and every
@@ -219,3 +220,16 @@ Check C15_prune_sound.
 Check C15_survives.
 Check C15_hwm_monotone.
 Check C15_no_reuse.
+
+(** The decision "this channel's monitor is done" that every statement above rests on is the one
+    in the source: Gen/MonitorGen.v is the statement-by-statement translation of
+    [monitor::State::depth_of], [::deep_enough_and_saw_node_forget] and [::is_done]
+    (vls-core/src/monitor.rs with its constant MIN_DEPTH, regenerated on every run by
+    tools/gen_rustfn.py), and for every chain height below 2^32-1 it computes, in both build
+    profiles, exactly the model's [Monitor.is_done]. *)
+Theorem C15_done_decision_is_source :
+  forall (prof : profile) (fr : MonitorGenProofs.mframe) (s : Monitor.state) (forgot : bool),
+    Monitor.height s < U32MAX ->
+    MonitorGen.gen_is_done prof (MonitorGenProofs.to_rms fr s forgot) = Val (Monitor.is_done s forgot).
+Proof. exact MonitorGenProofs.gen_is_done_is_model. Qed.
+Print Assumptions C15_done_decision_is_source.
